@@ -3,7 +3,8 @@ use super::*;
 
 const LEN_SMALL: &[u64] = &[0, 1, 2, 7, 8, 63, 64, 100, 300, 500, 1000];
 const LEN_BOUNDARY: &[u64] = &[1190, 1195, 1198, 1199, 1200, 1201, 1202, 2399, 2400, 2401, 3599, 3600, 3601];
-const LEN_BIG: &[u64] = &[1300, 2000, 2500, 4000, 4800, 4801, 6000, 12_000, 24_001, 60_000];
+// (75 600 / 75 601 / 76 800 / 76 801 bytes: 63, 64, 64 and 65 slices — the slice count crosses a varint width)
+const LEN_BIG: &[u64] = &[1300, 2000, 2500, 4000, 4800, 4801, 6000, 12_000, 24_001, 60_000, 75_600, 75_601, 76_800, 76_801];
 
 impl WorldA {
     fn pick_len(&self, rng: &mut Rng, max_mem: usize) -> u64 {
